@@ -819,6 +819,49 @@ def gen_scenario(rng: Any, want_fault: str | None = None, steps: int | None = No
     return sc
 
 
+def resync_scenarios(rng: Any, count: int) -> list[dict]:
+    """Histories in which a reload is consumed by an ESTABLISHED session, the API then speaks for a prefix
+    the reload touched (removed, changed, or left alone) and the session is lost afterwards: the reload that
+    follows the loss finds the peer re-established and judges its table (configured + still-valid API routes).
+    What a reload leaves behind in the peer (`neighbor.previous`, the consumed `_neighbor`) is then exercised
+    by the next session start (`replace_restart`)."""
+    out = []
+    for _ in range(count):
+        fams = [1, 2]
+        routes = gen_routes(rng, fams, rng.choice([2, 3, 4]))
+        nb = {'name': 1, 'key': 1, 'fams': fams, 'routes': routes}
+        others = [gen_nbr(rng, 2)] if rng.random() < 0.4 else []
+        old = {'procs': [1], 'nbrs': [nb] + others}
+        kept = copy.deepcopy(routes)
+        victim = kept.pop(rng.randrange(len(kept)))
+        how = rng.choice(['removed', 'removed', 'changed', 'untouched'])
+        if how == 'changed':
+            kept.append([victim[0], 1 + victim[1] % 3, victim[2]])
+        elif how == 'untouched':
+            kept.append(victim)
+            if kept:
+                kept[0] = [kept[0][0], 1 + kept[0][1] % 3, kept[0][2]]  # the reload changes something else
+        if rng.random() < 0.3:
+            free = [n for n in ribrig.NLRIS if ribrig.NLRI_FAM[n] in fams and n not in (5, 8) and n not in {r[0] for r in routes}]
+            if free:
+                kept.append([rng.choice(free), rng.choice([1, 2, 3]), rng.choice([1, 2])])
+        new = {'procs': [1], 'nbrs': [dict(nb, routes=kept)] + copy.deepcopy(others)}
+        at, h = (victim[1], victim[2]) if rng.random() < 0.5 else (rng.choice([1, 2, 3]), rng.choice([1, 2]))
+        api = [[1, 'announce', victim[0], at, h]]
+        if rng.random() < 0.3:
+            api.append([1, rng.choice(['announce', 'withdraw']), rng.choice([r[0] for r in routes]), rng.choice([1, 2, 3]), 1])
+        mode = rng.choice(['settled', 'settled', 'burst'])
+        steps = [
+            {'flap': [], 'api': [], 'mode': 'settled', 'new': new},
+            {'flap': [], 'api': api, 'mode': mode, 'new': copy.deepcopy(new)},
+            {'flap': [1], 'api': [], 'mode': 'settled', 'new': copy.deepcopy(new)},
+        ]
+        if rng.random() < 0.5:  # the loss right after the API command, in the same step
+            steps = [steps[0], {'flap': [], 'api': api, 'mode': mode, 'new': copy.deepcopy(new)}, {'flap': [1], 'api': [], 'mode': 'settled', 'new': copy.deepcopy(new)}, {'flap': [1], 'api': [], 'mode': 'settled', 'new': copy.deepcopy(new)}]
+        out.append({'old': old, 'up': [1] + ([2] if others and rng.random() < 0.5 else []), 'steps': steps})
+    return out
+
+
 def every_line(sc: dict) -> list[dict]:
     """The broken variants of a one-reload scenario with the fault at EVERY line of the new file, each followed
     by a reload of the original file."""
@@ -948,6 +991,7 @@ def run(ctx: Ctx) -> None:
         base['steps'][0]['mode'] = 'settled'
         base['steps'][0].pop('fault', None)
         cases += [(v, 'every-line') for v in every_line(base)]
+    cases += [(sc, 'resync') for sc in resync_scenarios(rng, 12 if ctx.tier == 'quick' else 300)]
     for i in range(ncases):
         cases.append((gen_scenario(rng), 'random'))
     drv = common.Driver('drv_reload') if ctx.driver_ok else None
@@ -996,7 +1040,7 @@ def run(ctx: Ctx) -> None:
             for c, what in res['failures']:
                 ctx.count('oracle-fail:' + '/'.join(c))
                 key = json.dumps(c)
-                rank = (origin in ('random', 'every-line'), size(sc))
+                rank = (origin in ('random', 'every-line', 'resync'), size(sc))
                 if key not in best or rank < best[key][0]:
                     best[key] = (rank, sc, what)
     finally:
